@@ -94,6 +94,10 @@ func check(id string, args []string) (code int) {
 		seed, _ = strconv.ParseInt(s, 10, 64)
 	}
 	c := props.NewCtx(tier)
+	switch id {
+	case "C03", "C09", "C10", "C20":
+		c.QuickArm64 = true
+	}
 	defer func() {
 		if r := recover(); r != nil {
 			// a panic in the checker fails the check (fail closed)
